@@ -27,6 +27,8 @@ sd = ['| seeded change | property | what it needs to manifest | confirmed | dete
 for mp in sorted(glob.glob(os.path.join(ROOT, 'seeded', '*', 'meta.json'))):
     m = json.load(open(mp)); sid = os.path.basename(os.path.dirname(mp))
     det = m.get('detection', {})
+    if m.get('retired'):
+        det = dict(det, status='retired (was ' + det.get('status', '?') + ')', how=m['retired'])
     sd.append(f"| {sid} | {m.get('property')} | {esc(m.get('needs_to_manifest', ''))[:260]} | {esc(m.get('confirmed', 'pending'))[:40]} | **{det.get('status', 'pending')}** — {esc(det.get('how', ''))[:300]} |")
 def put(d, name, body):
     b, e = f'<!-- {name}:BEGIN -->', f'<!-- {name}:END -->'
